@@ -82,6 +82,32 @@
 #define SKINNY_VEC256_MATH 0
 #endif
 
+/* Verification hook, inactive unless SKINNY_VERIF is defined: lets a check
+   override the five platform switches above from the compiler command line,
+   e.g. -DSKINNY_VERIF -DSKINNY_VERIF_64BIT=0 -DSKINNY_VERIF_VEC256_MATH=0 */
+#if defined(SKINNY_VERIF)
+#if defined(SKINNY_VERIF_64BIT)
+#undef SKINNY_64BIT
+#define SKINNY_64BIT SKINNY_VERIF_64BIT
+#endif
+#if defined(SKINNY_VERIF_UNALIGNED)
+#undef SKINNY_UNALIGNED
+#define SKINNY_UNALIGNED SKINNY_VERIF_UNALIGNED
+#endif
+#if defined(SKINNY_VERIF_LITTLE_ENDIAN)
+#undef SKINNY_LITTLE_ENDIAN
+#define SKINNY_LITTLE_ENDIAN SKINNY_VERIF_LITTLE_ENDIAN
+#endif
+#if defined(SKINNY_VERIF_VEC128_MATH)
+#undef SKINNY_VEC128_MATH
+#define SKINNY_VEC128_MATH SKINNY_VERIF_VEC128_MATH
+#endif
+#if defined(SKINNY_VERIF_VEC256_MATH)
+#undef SKINNY_VEC256_MATH
+#define SKINNY_VEC256_MATH SKINNY_VERIF_VEC256_MATH
+#endif
+#endif /* SKINNY_VERIF */
+
 /* Attribute for declaring a vector type with this compiler */
 #if defined(__clang__)
 #define SKINNY_VECTOR_ATTR(words, bytes) __attribute__((ext_vector_type(words)))
